@@ -308,6 +308,16 @@ def run_unit(args):
             except Violation as v:
                 case, msg = box["failed"] if box["failed"] else ({"steps": []}, str(v))
                 res["violation"] = {"message": msg, "case": case, "phase": "stateful"}
+            except BaseException as e:  # noqa
+                # same rule as for plain cases: a history that violated the property once and passes (or fails differently) when Hypothesis
+                # replays it means that the library's behaviour depends on what the PROCESS did before - itself a purity violation
+                if box["failed"] is not None and type(e).__name__ in ("Flaky", "FlakyFailure", "FlakyReplay", "FlakyStrategyDefinition", "ExceptionGroup", "BaseExceptionGroup"):
+                    case, msg = box["failed"]
+                    res["violation"] = {"message": msg + "  [observed once; the same history behaved differently when re-executed in this process, i.e. the "
+                                        "library's result depends on earlier calls - the replay file may not reproduce it in a fresh process]",
+                                        "case": case, "phase": "stateful-flaky"}
+                else:
+                    raise
         res["nt_digests"] = [d.hex() for d in digests]
         res["samples"] = samples
         for k_, v_ in ctx.events.items():
